@@ -235,6 +235,25 @@ def gen_crafted(rng, target="binary"):
     return ds
 
 
+def gen_close_rates(rng):
+    """a categorical feature whose modalities have training target rates that differ by less than 1e-3 (large exact
+    counts), in an order opposite to the alphabetical one: any rounding of the rates before sorting shows"""
+    k = rng.randint(2, 4)
+    cats = CATS[:k]
+    base = rng.choice([1000, 2000])
+    ones = base // 2
+    rows = []
+    for i, c in enumerate(cats):
+        n_c = base + i                     # later letters are slightly larger, hence slightly *lower* rates
+        rows += [(c, 1 if j < ones else 0) for j in range(n_c)]
+    rng.shuffle(rows)
+    X = pd.DataFrame({"ca0": pd.Series([r[0] for r in rows], dtype=object)})
+    X["extra_col"] = range(len(rows))
+    y = pd.Series([r[1] for r in rows], index=X.index, name="target")
+    return dict(X=X, y=y, X_dev=None, y_dev=None, quantitative=[], qualitative=["ca0"], ordinal=[], values_orders={},
+                target="binary", kinds=["cat-close-rates"], ok_target=True)
+
+
 def _target_ok(ds):
     y = ds["y"]
     u = set(y.unique())
